@@ -121,7 +121,11 @@ def binding (N : Nat) : Trace.Binding (proto N) :=
       | _, _ => none
     retOf := fun l => match l with
       | .done r _ => some [r]
-      | _ => none }
+      | _ => none
+    reqOrder := fun l => match l with
+      | .lkOr _ | .tlOr _ | .tlRollback _ _ | .ulAnd _ | .lsAdd _ | .lsRelease _ | .tsAdd _ | .tsRelease _ | .usSub _ => 4
+      | .lkLoad _ | .lsSpin _ => 2
+      | _ => 0 }
 
 def init (N : Nat) : State (proto N) := initState (proto N) L.idle (fun _ => 0)
 
